@@ -1,12 +1,14 @@
 package progenum
 
+import "strings"
+
 // CatalogueForms: constructs outside (or at the edge of) the supported subset,
 // one entry per guard family of the translator plus constructs for which no
 // guard exists. Oracle per declaration: rejected, or accepted-and-faithful.
 func CatalogueForms() []Form {
 	c := func(id, code string) Form { return Form{ID: id, Code: code, Family: "catalogue"} }
 	cd := func(id, decls, code string) Form { return Form{ID: id, Code: code, Family: "catalogue", Decls: decls} }
-	return []Form{
+	out := []Form{
 		// assignment operators without a translation
 		c("mul_assign", "a *= x"), c("quo_assign", "a /= (y | 1)"), c("rem_assign", "a %= (y | 1)"),
 		c("shl_assign", "a <<= (y % 8)"), c("shr_assign", "a >>= (y % 8)"), c("andnot_assign", "a &^= y"),
@@ -116,7 +118,70 @@ func CatalogueForms() []Form {
 		c("method_on_field", "r = sp.in.hv()"),
 		c("println_builtin", "println(x)\nr = x"),
 		c("min_builtin", "r = min(x, y)"), c("clear_builtin", "clear(m)\nr = uint64(len(m))"),
+		// builtins recognised by spelling, with operands that have effects (a translation that duplicates or reorders an operand shows)
+		c("min_effect_operand", "r = min(bumpVal(p), y+5)"), c("max_effect_operand", "r = max(x, bumpVal(p))"),
+		c("max_three", "r = max(x, y, 3)"), c("min_three_effect", "r = min(bumpVal(p), bumpVal(p)+1, 9)"),
+		// writes to := bound (immutable) names inside a nested scope: a re-binding would not escape the scope
+		c("inc_define_local_in_if", "z := x\nif t || x < 50 {\n\tz++\n}\nr = z"),
+		c("inc_define_local_in_loop", "z := x\nfor ci := uint64(0); ci < 3; ci++ {\n\tz++\n}\nr = z"),
+		c("dec_define_local_in_else", "z := x + 5\nif x > 1000 {\n\tr = 1\n} else {\n\tz--\n}\nr = z"),
+		c("assign_define_local", "z := x\nz = y + 2\nr = z"),
+		c("assign_define_local_in_if", "z := x\nif t || x < 50 {\n\tz = y + 2\n}\nr = z"),
+		c("assign_define_local_in_loop", "z := x\nfor ci := uint64(0); ci < 3; ci++ {\n\tz = z + ci\n}\nr = z"),
+		c("opassign_define_local_in_range", "z := x\nfor _, cv := range xs {\n\tz += cv + 1\n}\nr = z"),
+		c("assign_param_in_if", "if t || x < 50 {\n\tx = x + 3\n}\nr = x"),
+		c("inc_param_in_loop", "for ci := uint64(0); ci < 3; ci++ {\n\ty++\n}\nr = y"),
+		c("assign_define_local_in_closure", "z := x\nfn := func() {\n\tz = z + 1\n}\nfn()\nr = z"),
+		c("assign_multidefine_in_if", "z, ok := two(x)\nif ok || t {\n\tz = z + 4\n}\nr = z"),
+		c("assign_rangevar_in_body", "for _, cv := range xs {\n\tcv = cv + 1\n\tr += cv\n}"),
 	}
+	return append(out, controlShapeForms()...)
+}
+
+// controlShapeForms: every jump (break, continue, return) x the branch of an
+// if statement it sits in (then, else, else-if with and without a final else,
+// nested if, both branches) x loop kind (three-clause, condition-only, range,
+// none for return) x whether statements follow the if.  Whatever the
+// translator accepts has to behave like Go.
+func controlShapeForms() []Form {
+	type loop struct{ id, tmpl, cv string }
+	loops := []loop{
+		{"for3", "for ci := uint64(0); ci < 4; ci++ {\n$\n}", "ci"},
+		{"forcond", "var ci uint64 = 0\nfor ci < 4 {\n\tci = ci + 1\n$\n}", "ci"},
+		{"range", "for _, cv := range ts {\n$\n}", "cv.b"},
+		{"noloop", "$", "x"},
+	}
+	shapes := [][2]string{
+		{"then", "if C == 1 {\n\tr += 10\n\tJ\n}"},
+		{"else", "if C != 1 {\n\tr += 100\n} else {\n\tr += 10\n\tJ\n}"},
+		{"elseif", "if C == 0 {\n\tr += 100\n} else if C == 1 {\n\tr += 10\n\tJ\n}"},
+		{"elseif_else", "if C == 0 {\n\tr += 100\n} else if C == 1 {\n\tJ\n} else {\n\tr += 1000\n}"},
+		{"nested", "if C > 0 {\n\tif C == 1 {\n\t\tJ\n\t}\n\tr += 100\n}"},
+		{"both", "if C == 1 {\n\tJ\n} else {\n\tr += 7\n}"},
+	}
+	var out []Form
+	for _, l := range loops {
+		for _, j := range [][2]string{{"break", "break"}, {"continue", "continue"}, {"return", retStmt}} {
+			if l.id == "noloop" && j[0] != "return" {
+				continue
+			}
+			for _, sh := range shapes {
+				for _, tail := range []bool{false, true} {
+					body := strings.ReplaceAll(strings.ReplaceAll(sh[1], "C", l.cv), "J", j[1])
+					id := "ctl_" + l.id + "_" + j[0] + "_" + sh[0]
+					if !tail {
+						body += "\nr += 1"
+						id += "_then_more"
+					}
+					if l.id != "noloop" {
+						body = indent(body, 1)
+					}
+					out = append(out, Form{ID: id, Code: strings.Replace(l.tmpl, "$", body, 1), Family: "catalogue"})
+				}
+			}
+		}
+	}
+	return out
 }
 
 // CrashForms: type shapes and constructs that exercise unchecked type
